@@ -76,13 +76,13 @@ func (r *runner) restarts() {
 		r.calls = nil
 		r.mu.Unlock()
 		ic := r.async("Init", func() error { return eng2.LC.Init(r.ctx) })
-		if !waitCall(ic, hangBound) {
+		if !waitCall(ic, r.bound()) {
 			r.log.Add("Hang", "call", "Init")
 		}
 		if st := r.pipelineStatus(); st != "Running" {
 			// the pipeline was not running at the crash instant: start it the way a user would
 			sc := r.async("Start", func() error { return eng2.LC.Start(r.ctx, PipelineID) })
-			waitCall(sc, hangBound)
+			waitCall(sc, r.bound())
 		}
 		r.started = true
 		r.log.Quiesce(5*time.Millisecond, 3*time.Second)
